@@ -163,5 +163,22 @@ func checks() map[string]CheckDef {
 		Outside: []string{"a custom header literally named Content-Type (the sender sets that name itself; assumed different)", "the net/http client in transports/http/client (the header map handed to it is what is asserted)", "events delivered concurrently; the HTTP shell of the webhook endpoints is C16", "restart: the service keeps no webhook state in memory"},
 		Stubs:   []string{"WebhookTargetClient: recording stub with symbolic outcomes; http.Response bodies are harness readers", "time.Now arbitrary non-decreasing"},
 	})
+	add(CheckDef{
+		ID: "C07", Level: "model_checking",
+		Runs: []HRun{
+			{Pkg: "internal/zzverif/c01", Func: "HarnessAddStep", Quick: [][]int64{{2, 1}, {2, 2}}, Thorough: [][]int64{{3, 2}, {4, 1}},
+				Labels: []string{"C01/known-or-forbidden-never-stored", "C01/nothing-stored-only-when-known-or-forbidden", "C01/rejected-submission-changes-nothing", "C01/inv-preserved"}},
+			{Pkg: "transports/p2p/p2psync", Func: "HarnessNextCheckpoint", Quick: [][]int64{{0}, {1}, {2}, {3}}, Thorough: [][]int64{{0}, {1}, {2}, {3}, {4}, {5}},
+				Labels: []string{"C07/next-checkpoint-is-the-first-one-above", "C07/no-checkpoint-after-the-last"}},
+			{Pkg: "transports/p2p/p2psync", Func: "HarnessHeadersBatch", Quick: [][]int64{{1, 0}, {2, 1}, {2, 2}, {3, 1}}, Thorough: [][]int64{{3, 2}, {4, 1}, {3, 3}, {4, 2}},
+				Labels: []string{"C07/nothing-submitted-after-a-forbidden-or-checkpoint-violating-header", "C07/offending-peer-is-disconnected", "C07/nothing-further-requested-from-offending-peer", "C07/forbidden-header-bans-the-peer-once",
+					"C07/request-stops-at-the-next-checkpoint", "C07/after-the-last-checkpoint-requests-are-unbounded", "C07/matching-checkpoint-advances-sync-from-it", "C07/exactly-one-follow-up-request"}},
+			{Pkg: "internal/transports/p2p/peer", Func: "HarnessCheckpointCursor", Quick: [][]int64{{0}, {1}, {2}, {3}}, Thorough: [][]int64{{0}, {1}, {2}, {3}, {4}},
+				Labels: []string{"C07x/cursor-starts-at-first-checkpoint-above-tip", "C07x/matching-header-advances-to-exactly-the-next-checkpoint", "C07x/contradicting-or-skipping-header-refused", "C07x/after-the-last-checkpoint-unbounded", "C07x/no-checkpoint-left-means-unbounded"}},
+		},
+		Bounds:  []string{"storage: the C01 step with 1..2 arbitrary forbidden hashes (a forbidden hash is never stored; INV-H incl. 'no stored forbidden hash' is preserved, so its descendants can only be orphans)", "default engine: handleHeadersMsg on batches of m headers (quick m<=3, thorough m<=4) with an arbitrary outcome per header (stored on the longest chain / stored elsewhere / known / forbidden / save failure), arbitrary heights and hashes, checkpoint lists of n<=3 ascending arbitrary checkpoints and every cursor position", "checkpoint search (both engines): every list of n ascending checkpoints (n<=5), every height"},
+		Outside: []string{"'still converges afterwards' (C06)", "ban bookkeeping and peer admission (C18)", "the experimental engine's message loop around VerifyAndAdvance (sockets, goroutines)", "serving endpoints never return a forbidden header because none is ever stored (INV-H), not checked per endpoint"},
+		Stubs:   []string{"service.Chains replaced by a stub returning an arbitrary outcome per header (each outcome is one C01 allows)", "service.Headers stub supplies the locator", "peer: a real peerpkg.Peer marked connected with a no-op connection; queued messages and Disconnect are observed through in-package helpers", "SyncManager.logSyncState (logging) is a no-op"},
+	})
 	return m
 }
